@@ -577,6 +577,9 @@ class Interp:
                 return BoundMethod(base, attr)
             fields = st.heap[base.oid]
             if attr not in fields:
+                cc = self.class_constant(cls, attr, st)
+                if cc is not None:
+                    return cc
                 fields[attr] = self.materialize_field(base, attr, st)
             v = fields[attr]
             if isinstance(v, Poison):
@@ -597,11 +600,9 @@ class Interp:
                 r = self.repo.find_method(base.name, self.mangle(attr, fr.cls if fr else None))
                 if r is not None:
                     return BoundMethod(base, r[1].name)
-                ci = self.repo.classes[base.name]
-                for stmt in ci.node.body:  # class-level constants
-                    if isinstance(stmt, ast.Assign) and isinstance(stmt.targets[0], ast.Name) and \
-                            stmt.targets[0].id == attr:
-                        return self.eval(stmt.value, st)
+                cc = self.class_constant(base.name, attr, st)
+                if cc is not None:
+                    return cc
             raise Unsupported(f"class attribute {attr}")
         if isinstance(base, (Arr, Ref, VTuple)) and not (isinstance(base, Ref) and base.what != "arr"):
             a = self.arr_of(base, st)
@@ -625,6 +626,26 @@ class Interp:
             if attr == "__name__":
                 return VStr(z3.Int(fresh_name("fname")))
         raise Unsupported(f"attribute {attr} of {type(base).__name__}")
+
+    def class_constant(self, cls, attr, st):
+        """NAME = <literal expression> in the class body (following the MRO), unless a sidecar declares the field."""
+        for c in (self.repo.mro(cls) or []):
+            spec = self.reg["classes"].get(c)
+            if spec is not None and attr in spec.fields:
+                return None
+            for stmt in self.repo.classes[c].node.body:
+                tgt = None
+                if isinstance(stmt, ast.Assign) and len(stmt.targets) == 1 and isinstance(stmt.targets[0], ast.Name):
+                    tgt, val = stmt.targets[0].id, stmt.value
+                elif isinstance(stmt, ast.AnnAssign) and isinstance(stmt.target, ast.Name) and stmt.value is not None:
+                    tgt, val = stmt.target.id, stmt.value
+                if tgt == attr:
+                    try:
+                        ast.literal_eval(val)
+                    except Exception:  # noqa: BLE001
+                        return None
+                    return self.eval(val, st)
+        return None
 
     def materialize_field(self, obj: Obj, attr, st):
         for c in (self.repo.mro(obj.cls) or [obj.cls]):
